@@ -558,10 +558,58 @@ def native_buffers_check(copy, numels, G, dt_name, seed=0):
     return None
 
 
+def native_state_placement(world, group):
+    """real DDP optimizer on simulated ranks: every block's optimizer state lives on exactly one rank of each group"""
+    import torch
+    from checks import dist as D
+    from distributed_shampoo import shampoo_types as st
+
+    def fn(rank):
+        from distributed_shampoo.distributed_shampoo import DistributedShampoo
+        params = [torch.nn.Parameter(torch.zeros(4, 2)), torch.nn.Parameter(torch.zeros(2, 2)), torch.nn.Parameter(torch.zeros(6)), torch.nn.Parameter(torch.zeros(3, 2))]
+        opt = DistributedShampoo(params, lr=0.1, betas=(0.9, 0.99), epsilon=1e-6, momentum=0.5, max_preconditioner_dim=2, use_merge_dims=False,
+                                 grafting_config=st.AdaGradGraftingConfig(epsilon=1e-8),
+                                 distributed_config=st.DDPShampooConfig(num_trainers_per_group=group))
+        Dd = opt._per_group_state_lists[0][st.DISTRIBUTOR]
+        keys = set()
+        for j, p in enumerate(params):
+            for bk, bs in opt.state[p].items():
+                if isinstance(bs, dict) and bk.startswith("block_"):
+                    keys.add((j, bk))
+        owned = {(bi.composable_block_ids[0], bi.composable_block_ids[1]) for bi in Dd.local_block_info_list}
+        total = len(Dd._global_blocked_params)
+        return keys, owned, total, rank % (group if group != -1 else world)
+
+    res = D.threaded(world, fn, timeout=120)
+    gsize = group if group != -1 else world
+    for g0 in range(0, world, gsize):
+        ranks = list(range(g0, g0 + gsize))
+        allk = [res[r][0] for r in ranks]
+        union = set().union(*allk)
+        if sum(len(k) for k in allk) != len(union):
+            return f"group {ranks}: some block's state is allocated on more than one rank"
+        if len(union) != res[ranks[0]][2]:
+            return f"group {ranks}: {res[ranks[0]][2]} blocks but state for {len(union)}"
+        for r in ranks:
+            if res[r][0] != res[r][1]:
+                return f"rank {r}: state keys {sorted(res[r][0])} differ from the blocks it owns {sorted(res[r][1])}"
+    return None
+
+
 def bounded(tier, seed):
     import random
     rng = random.Random(seed)
     evals, viol, distinct = 0, [], set()
+    for world, group in ((2, -1), (4, 2), (3, -1)) if tier != "quick" else ((2, -1), (4, 2)):
+        try:
+            bad = native_state_placement(world, group)
+        except BaseException as e:  # noqa
+            bad = f"{type(e).__name__}: {str(e)[:300]}"
+        evals += 1
+        distinct.add(("placement", world, group))
+        if bad:
+            viol.append(dict(ob=f"bounded/state-placement[world={world},group={group}]", func="DDPDistributor.__init__", input=dict(world=world, group=group), text=bad, detail=bad,
+                             replay=dict(kind="placement", world=world, group=group)))
     pool = [1, 20, 63, 64, 65, 128, 500, 4096]
     nmax = 5 if tier == "quick" else 7
     for copy in COPIES:
@@ -602,6 +650,9 @@ def replay_file(doc):
     if rp.get("kind") == "native_assign":
         bad = native_assign_check(rp["copy"], tuple(rp["sizes"]), rp["G"])
         return bool(bad), f"sizes {rp['sizes']} G={rp['G']}: {bad}"
+    if rp.get("kind") == "placement":
+        bad = native_state_placement(rp["world"], rp["group"])
+        return bool(bad), f"{rp}: {bad}"
     if rp.get("kind") == "native_buffers":
         bad = native_buffers_check(rp["copy"], rp["numels"], rp["G"], rp["dt"])
         return bool(bad), f"{rp}: {bad}"
